@@ -77,17 +77,39 @@ func (p *Prog) RunBCE(extraEnv ...string) ([]BoundsSite, error) {
 		args = append(args, "-overlay="+oj)
 	}
 	args = append(args, "./...")
-	cmd := exec.Command("go", args...)
-	cmd.Dir = p.Repo
-	cmd.Env = append(os.Environ(), extraEnv...)
 	var out bytes.Buffer
-	cmd.Stdout = &out
-	cmd.Stderr = &out
-	runErr := cmd.Run()
+	build := func(a []string) error {
+		out.Reset()
+		cmd := exec.Command("go", a...)
+		cmd.Dir = p.Repo
+		cmd.Env = append(os.Environ(), extraEnv...)
+		cmd.Stdout = &out
+		cmd.Stderr = &out
+		return cmd.Run()
+	}
+	runErr := build(args)
 	// the build itself must succeed (diagnostics go to stderr with exit status 0)
 	if runErr != nil {
 		// with -d flags the go command still exits 0; a non-zero status is a real build failure
 		return nil, fmt.Errorf("go build (bounds-check report) failed: %v: %s", runErr, firstLines(out.String(), 5))
+	}
+	// The report of an unchanged package is replayed from the go build cache. A cache that kept a
+	// package's object but lost its recorded output (trimmed by age, copied incompletely) replays
+	// nothing, and the package would look free of unproven checks. A module package that is full
+	// of index and slice expressions and reports none at all is therefore compiled again under an
+	// equivalent flag spelling, which has another cache key (module packages only: seconds).
+	if quiet := p.quietIndexingPackages(out.String()); len(quiet) > 0 {
+		args2 := append([]string{}, args...)
+		args2[1] = "-gcflags=" + ModPath + "/...=-d=ssa/check_bce/debug=1 -e"
+		var keep bytes.Buffer
+		keep.Write(out.Bytes())
+		if err := build(args2); err != nil {
+			out.Reset()
+			out.Write(keep.Bytes())
+		}
+		if os.Getenv("VERIF_DEBUG") != "" {
+			fmt.Fprintf(os.Stderr, "debug: bounds-check report re-built for %v (nothing was replayed for them)\n", quiet)
+		}
 	}
 	// index functions by file
 	type frange struct {
@@ -553,4 +575,50 @@ func singlePureDef(info *types.Info, af *ast.File, v *types.Var) ast.Expr {
 		return nil
 	}
 	return def
+}
+
+// quietIndexingPackages: module packages with at least 40 index / slice expressions in their
+// source for which the report contains no line.
+func (p *Prog) quietIndexingPackages(report string) []string {
+	seen := map[string]bool{}
+	for _, l := range strings.Split(report, "\n") {
+		m := bceRe.FindStringSubmatch(l)
+		if m == nil {
+			continue
+		}
+		f := m[1]
+		if strings.HasPrefix(f, "/") {
+			if !strings.HasPrefix(f, p.Repo+"/") {
+				continue
+			}
+			f = strings.TrimPrefix(f, p.Repo+"/")
+		}
+		seen[filepath.Dir(strings.TrimPrefix(f, "./"))] = true
+	}
+	var quiet []string
+	for _, pk := range p.Pkgs {
+		n := 0
+		dir := ""
+		for _, f := range pk.Syntax {
+			name := p.Fset.Position(f.Pos()).Filename
+			if strings.HasSuffix(name, "_test.go") {
+				continue
+			}
+			if rel, err := filepath.Rel(p.Repo, filepath.Dir(name)); err == nil {
+				dir = rel
+			}
+			ast.Inspect(f, func(x ast.Node) bool {
+				switch x.(type) {
+				case *ast.IndexExpr, *ast.SliceExpr:
+					n++
+				}
+				return true
+			})
+		}
+		if dir != "" && n >= 40 && !seen[dir] {
+			quiet = append(quiet, dir)
+		}
+	}
+	sort.Strings(quiet)
+	return quiet
 }
